@@ -231,4 +231,117 @@ theorem maximise_isothermal_cold (tol : Rat) (T H : List Rat) (u : ULevel) (qA :
         · exact foldl_max_ge_init (·.qPot) cs _
         · exact foldl_max_ge_mem (·.qPot) cs _ x hx
 
+/-! ### gliding levels: the return-temperature limit -/
+
+theorem foldl_optmin_some (p : Cand → Prop) [DecidablePred p] (g : Cand → Rat) :
+    ∀ (cs : List Cand) (a : Rat), ∃ v,
+      cs.foldl (fun acc x => if p x then (match acc with | none => some (g x) | some a => some (min a (g x))) else acc) (some a) = some v := by
+  intro cs
+  induction cs with
+  | nil => intro a; exact ⟨a, rfl⟩
+  | cons c cs ih =>
+    intro a
+    simp only [List.foldl_cons]
+    by_cases hp : p c
+    · simp only [hp, if_true]; exact ih _
+    · simp only [hp, if_false]; exact ih _
+
+theorem foldl_if_none_conv (p : Cand → Prop) [DecidablePred p] (g : Cand → Rat) :
+    ∀ (cs : List Cand),
+      cs.foldl (fun acc x => if p x then (match acc with | none => some (g x) | some a => some (min a (g x))) else acc) none = none →
+      ∀ x ∈ cs, ¬ p x := by
+  intro cs
+  induction cs with
+  | nil => intro _ x hx; simp at hx
+  | cons c cs ih =>
+    intro h x hx
+    simp only [List.foldl_cons] at h
+    by_cases hp : p c
+    · simp only [hp, if_true] at h
+      obtain ⟨v, hv⟩ := foldl_optmin_some p g cs (g c)
+      rw [hv] at h; cases h
+    · simp only [hp, if_false] at h
+      rcases List.mem_cons.mp hx with rfl | hx
+      · exact hp
+      · exact ih h x hx
+
+theorem foldl_optmin_le (p : Cand → Prop) [DecidablePred p] (g : Cand → Rat) :
+    ∀ (cs : List Cand) (acc : Option Rat) (v : Rat),
+      cs.foldl (fun acc x => if p x then (match acc with | none => some (g x) | some a => some (min a (g x))) else acc) acc = some v →
+      (∀ a, acc = some a → v ≤ a) ∧ ∀ x ∈ cs, p x → v ≤ g x := by
+  intro cs
+  induction cs with
+  | nil =>
+    intro acc v h
+    simp only [List.foldl_nil] at h
+    refine ⟨fun a ha => ?_, fun x hx => by simp at hx⟩
+    rw [h] at ha; cases ha; exact le_refl _
+  | cons c cs ih =>
+    intro acc v h
+    simp only [List.foldl_cons] at h
+    by_cases hp : p c
+    · simp only [hp, if_true] at h
+      cases acc with
+      | none =>
+        obtain ⟨h1, h2⟩ := ih _ v h
+        refine ⟨fun a ha => (by cases ha), ?_⟩
+        intro x hx hpx
+        rcases List.mem_cons.mp hx with rfl | hx
+        · exact h1 _ rfl
+        · exact h2 x hx hpx
+      | some a0 =>
+        obtain ⟨h1, h2⟩ := ih _ v h
+        have := h1 _ rfl
+        refine ⟨fun a ha => (by cases ha; exact le_trans this (min_le_left _ _)), ?_⟩
+        intro x hx hpx
+        rcases List.mem_cons.mp hx with rfl | hx
+        · exact le_trans this (min_le_right _ _)
+        · exact h2 x hx hpx
+    · simp only [hp, if_false] at h
+      obtain ⟨h1, h2⟩ := ih _ v h
+      refine ⟨h1, ?_⟩
+      intro x hx hpx
+      rcases List.mem_cons.mp hx with rfl | hx
+      · exact absurd hpx hp
+      · exact h2 x hx hpx
+
+/-- **Return-temperature limit (`Q_tt`)**: for every valid interval that lies beyond the utility's
+    target temperature (`tol < -dtTar`), the share of the duty that a utility gliding linearly from
+    supply to target still has to release beyond that interval's row — `d · (-dtTar) / |tt - ts|` —
+    fits the load `qCur` that the profile still holds there. -/
+theorem maximise_return_limit (tol : Rat) (T H : List Rat) (u : ULevel) (isHot : Bool) (qA : Rat) :
+    ∀ c ∈ candidates tol T H u isHot qA, tol < -c.dtTar → 0 ≤ tol →
+      maximiseUtilityDuty tol T H u isHot qA * (-c.dtTar) ≤ c.qCur * rabs (u.tt - u.ts) ∨
+      maximiseUtilityDuty tol T H u isHot qA = 0 := by
+  intro c hc hlt htol
+  unfold maximiseUtilityDuty
+  split_ifs with hlen
+  · exact Or.inr rfl
+  · cases hcs : candidates tol T H u isHot qA with
+    | nil => rw [hcs] at hc; simp at hc
+    | cons c0 cs =>
+      rw [hcs] at hc
+      simp only
+      split_ifs with hdt
+      · exact Or.inr rfl
+      · left
+        have hpos : 0 < -c.dtTar := lt_of_le_of_lt htol hlt
+        split
+        · rename_i hnone
+          -- some interval beyond the target exists, so the fold cannot be `none`
+          exfalso
+          have := foldl_if_none_conv (fun x => tol < -x.dtTar)
+            (fun x => x.qCur / (-x.dtTar) * rabs (u.tt - u.ts)) (c0 :: cs) hnone c hc
+          exact this hlt
+        · rename_i v hv
+          have hle := (foldl_optmin_le (fun x => tol < -x.dtTar)
+            (fun x => x.qCur / (-x.dtTar) * rabs (u.tt - u.ts)) (c0 :: cs) none v hv).2 c hc hlt
+          have h1 : min (cs.foldl (fun m x => max m x.qPot) c0.qPot) v ≤ c.qCur / (-c.dtTar) * rabs (u.tt - u.ts) :=
+            le_trans (min_le_right _ _) hle
+          have h2 := mul_le_mul_of_nonneg_right h1 (le_of_lt hpos)
+          have e : c.qCur / (-c.dtTar) * rabs (u.tt - u.ts) * (-c.dtTar) = c.qCur * rabs (u.tt - u.ts) := by
+            rw [mul_right_comm, div_mul_cancel₀ _ (ne_of_gt hpos)]
+          rw [e] at h2
+          exact h2
+
 end OP
